@@ -530,13 +530,13 @@ def report_fun(chk, runner, book, verdicts, max_unexplained=4):
     runs = [(cfg, hist) for _, (o, x, cfg, hist) in items]
     inter = []
     for k, (_, (o, x, cfg, hist)) in enumerate(items):
-        if o['probe']:
+        if hist:
             for ch in ('is_eval', 'simp'):
                 inter.append((k, ch, (cfg, hist[:-1] + ['~clear_' + ch, hist[-1]])))
     raws = runner.run(runs + [t[2] for t in inter], detail=True)
     causal = collections.defaultdict(list)
     for (k, ch, _), raw in zip(inter, raws[len(runs):]):
-        if raw['calls'][-1]['r'] == items[k][1][0]['r0']:
+        if result_of(items[k][1][0], raw) == items[k][1][0]['r0']:
             causal[k].append(ch)
     conf = judge_pairs(chk, menu, [(('valid', o['clean'], o['craw']), (cfg, hist, raw))
                                    for (_, (o, x, cfg, hist)), raw in zip(items, raws)])
@@ -555,8 +555,17 @@ def report_fun(chk, runner, book, verdicts, max_unexplained=4):
                 for j, c in enumerate(hist[:-1] if probe else hist):
                     if c == x:
                         ch += ['writes:' + n for n in channel(raw, j) if 'writes:' + n not in ch]
+        mp = mk[probe][1] if probe else o['m']
+        mx = mk[x][1] if x in mk else -1
+        scope = ('process' if mx < 0 else 'pure-call' if mx == 0 else 'same-machine' if mx == mp else
+                 'other-machine' if mp else 'machine-call')
+        # is there a state-changing call of the clean history between the (last) culprit call and the probe?
+        body = hist[:-1]
+        last = max([j for j, c in enumerate(body) if c == x] or [-1])
+        between = 'write' if x in mk and any(mk[c][0] == 'write' for c in body[last + 1:]) else 'none'
         key = {'clause': 'C12.function' if probe else 'C12.pool_function',
-               'probe': api_of(menu, probe) if probe else 'pool', 'culprit': culprit, 'channel': ','.join(ch)}
+               'probe': api_of(menu, probe) if probe else 'pool', 'culprit': culprit, 'scope': scope, 'between': between,
+               'channel': ','.join(ch)}
         chk.violation(key, {'abstract_key': o['key'], 'cfg': cfg, 'clean_history': o['clean'],
                             'clean_result': o['craw']['calls'][-1].get('show', '') if probe else o['r0'],
                             'polluted_history': hist,
@@ -628,6 +637,8 @@ def caches_cfg(policy, copyrows, checksig, maxcalls, invariants=True, cfgs=CONFI
 def model_call(c):
     if c['op'] == 'eval':
         return 'eval_%s_%s' % (c['e'], c['m'])
+    if c['op'] == 'assign':
+        return 'evi_setw_' + c['m']
     if c['op'] == 'simp':
         return 'simp_' + c['e']
     if c['op'] == 'dis':
@@ -652,30 +663,32 @@ def counterexample(out):
 def caches(chk, runner, menu, maxcalls):
     ev = chk.cov.setdefault('caches_model', {})
     kinds = {x['c']: x['kind'] for x in menu['calls']}
-    # (a) the property on the model as coded; its counterexample is replayed into the code
-    r = core.run_tlc('Caches', cfg_text=caches_cfg('as_coded', True, True, 3), workers=1, timeout=600)
-    chk.add_tlc(r)
-    m = re.search(r'Invariant (\w+) is violated', r.out)
-    if m:
-        st = counterexample(r.out)
-        if not st or not st.get('hist'):
-            raise core.MachineryError('cannot read the counterexample of Caches.tla:\n' + r.out[-2000:])
-        trace = [model_call(c) for c in st['hist']]
-        cfg = st.get('cfg', 'valid')
-        clean = [c for c in trace[:-1] if kinds[c] == 'write'] + [trace[-1]]
-        raws = runner.run([('valid', clean), (cfg, trace)], detail=True)
-        bk, vs = judge_small(chk, menu, [('valid', clean, raws[0]), (cfg, trace, raws[1])])
-        confirmed = any(v['id'] >= 2 and v['v'][0]['key'][0] == 'A' for v in vs)
-        ev['as_coded'] = {'invariant_violated': m.group(1), 'counterexample': trace, 'cfg': cfg, 'model_result': st.get('res'),
+    # (a) the property on the model as coded, and with the per-machine mark of the proposed repair; each
+    #     counterexample is replayed into the code
+    for policy in ('as_coded', 'per_machine'):
+        r = core.run_tlc('Caches', cfg_text=caches_cfg(policy, True, True, 3), workers=1, timeout=600)
+        chk.add_tlc(r)
+        m = re.search(r'Invariant (\w+) is violated', r.out)
+        if m:
+            st = counterexample(r.out)
+            if not st or not st.get('hist'):
+                raise core.MachineryError('cannot read the counterexample of Caches.tla:\n' + r.out[-2000:])
+            trace = [model_call(c) for c in st['hist']]
+            cfg = st.get('cfg', 'valid')
+            clean = [c for c in trace[:-1] if kinds[c] == 'write'] + [trace[-1]]
+            raws = runner.run([('valid', clean), (cfg, trace)], detail=True)
+            conf = judge_pairs(chk, menu, [(('valid', clean, raws[0]), (cfg, trace, raws[1]))])[0]
+            confirmed = any(k[0] == 'A' for k in conf)
+            ev[policy] = {'invariant_violated': m.group(1), 'counterexample': trace, 'cfg': cfg, 'model_result': st.get('res'),
                           'specified_result': st.get('exp'), 'confirmed_in_code': confirmed,
                           'code_results': {'clean': raws[0]['calls'][-1]['show'], 'after_history': raws[1]['calls'][-1]['show']}}
-        log('Caches.tla (as coded): %s violated by %s; replay in the code: %s' % (
-            m.group(1), ' ; '.join(trace), 'confirmed' if confirmed else 'not reproduced'))
-    elif r.ok:
-        ev['as_coded'] = {'invariant_violated': None}
-    else:
-        raise core.MachineryError('Caches.tla failed:\n' + r.out[-2000:])
-    # (b) design variants: the repair (mark only fresh objects) holds; the designs of the two mutants break the property
+            log('Caches.tla (%s): %s violated by %s; replay in the code: %s' % (
+                policy, m.group(1), ' ; '.join(trace), 'confirmed' if confirmed else 'not reproduced'))
+        elif r.ok:
+            ev[policy] = {'invariant_violated': None}
+        else:
+            raise core.MachineryError('Caches.tla failed:\n' + r.out[-2000:])
+    # (b) design variants: marking only fresh objects holds; the designs of the two mutants break the property
     for name, args, want in (('fresh_only', ('fresh_only', True, True), None),
                              ('rows_by_reference', ('fresh_only', False, True), 'TablesIntact'),
                              ('no_signature_check', ('fresh_only', True, False), 'ParserOK')):
@@ -690,7 +703,7 @@ def caches(chk, runner, menu, maxcalls):
             raise core.MachineryError('Caches.tla variant %s: expected %s, TLC says %s' % (name, want, got))
     # (c) model-to-code conformance: replay every behaviour of the model, compare predicted and rendered results
     preds = {}
-    for policy in ('as_coded', 'fresh_only'):
+    for policy in ('as_coded', 'per_machine', 'fresh_only'):
         dump = os.path.join(core.scratch(), 'caches_%s.dump' % policy)
         r = core.run_tlc('Caches', cfg_text=caches_cfg(policy, True, True, maxcalls, invariants=False), workers=1,
                          timeout=900, extra=['-dump', dump])
@@ -704,7 +717,7 @@ def caches(chk, runner, menu, maxcalls):
     items = sorted(preds)
     raws = runner.run([(cfg, list(h)) for cfg, h in items] + [('valid', ['asm_mov']), ('valid', ['att_mov'])], detail=True)
     ref = {'asm_mov': raws[-2]['calls'][0]['r'], 'att_mov': raws[-1]['calls'][0]['r']}
-    mism = {'as_coded': [], 'fresh_only': []}
+    mism = {'as_coded': [], 'per_machine': [], 'fresh_only': []}
     for (cfg, h), raw in zip(items, raws):
         last = raw['calls'][-1]
         if h[-1] in ref:
